@@ -46,7 +46,9 @@ def step (st : Option St) (ws : List String) : Option St × String :=
   | "spec_stream" :: lead :: rest =>
     (match parseNat lead, parseItems rest with
      | some lead, some items =>
-       (st, "ok" ++ (Spec.encode lead items).foldl (fun acc p => acc ++ s!" {p.1} {toHex p.2}") "")
+       (match Spec.encodeChecked lead items with
+        | some rows => (st, "ok" ++ rows.foldl (fun acc p => acc ++ s!" {p.1} {toHex p.2}") "")
+        | none => (st, "ok rejected-by-sender-self-check"))
      | _, _ => (st, "rej parse"))
   | "expect" :: _ => (st, "ok")
   | _ => (st, "rej op")
